@@ -23,6 +23,7 @@ TIERS = {
     "quick": {"runs": 20000, "budget_s": 240, "det_pairs": 6},
     "thorough": {"runs": 400000, "budget_s": 900, "det_pairs": 12},
 }
+SYSTEM_IN_RUN_PROCESS = True      # the code under test runs in the run process itself: its death by signal is the system's crash
 RUN_TIMEOUT = 120
 RULE = (
     "one run = one (writer history, metadata form, reader class, open schedule) drawn from the seed: "
